@@ -553,7 +553,20 @@ _c("C04",
    "under the deep-copy shape of __setattr__ (C04_ctor_args); a class statement with an ImmutableStructure/FinalStructure/"
    "ImmutableField base raises for all hierarchies (C04_no_subclass); the full statement is refuted on today's tables. The model's "
    "handle kinds and effects are compared with typedpy inside Coq on every immutable class shape (quick: nesting <= 1 plus a sample "
-   "at 2-3; thorough: all 2038 shapes exhaustively) and the property is evaluated directly by observable snapshots.",
+   "at 2-3; thorough: all 2038 shapes exhaustively) and the property is evaluated directly by observable snapshots. "
+   "Class options: on the two-component instance state (attributes, explicit-None markers; Struct/NoneFields.v) with the effect list "
+   "of Structure.__setattr__ re-translated from the source (Gen/StructNoneFields.v): an instantiated instance of an immutable class "
+   "refuses every assignment under EVERY combination of _enable_undefined_value/_ignore_none/_additional_properties/_required and "
+   "every finite assignment history leaves both components unchanged (C04_src_setattr_immutable_options, C04_options_history: "
+   "induction over the history); an immutable field holding a value is unchanged by every history of assignments to any keys that "
+   "avoids the one path on which __setattr__ returns before Field.__set__ (C04_immutable_field_history, frame lemma per key), and "
+   "on that path the marker is added (C04_none_marker_path_changes, C04_immutable_field_statement_refuted: finding F23). The "
+   "implementation is explored over the lattice {ImmutableStructure, immutable fields} x 8 option combinations x 6 provenances "
+   "(constructor, pickle, copy, deepcopy, Deserializer, shallow clone) x every key role (required/populated/container/explicit "
+   "None/absent/default/undeclared/sunder/_instantiated/_none_fields) x {setattr None/Undefined/same/other/invalid, delattr, delitem}, "
+   "each followed by a canonical assignment, plus random classes (11 field types) and random histories (harness/c04opts.py); every "
+   "setattr probe is compared in Coq with the generated effect list executed on the model state (Check/C04optchk.v). __delattr__ / "
+   "__delitem__ on the bookkeeping attributes are judged on observed behaviour only (finding F24).",
    "Trusted: Coq kernel + vm_compute; Handles.v hand-written (one field per class, two items per container); table recognisers in "
    "harness/gen.py and harness/genmods/c04tables.py (fail closed); two facts read off the running library rather than the AST "
    "(nested wrapper binding, unpickle keeps _instantiated); copy/deepcopy/pickle of handles probed by the harness only.",
